@@ -35,8 +35,13 @@ def run(res, a):
     res.trusted += TRUSTED
     mod = sys.modules[__name__]
     rng = core.rng_for(ID, res.seed)
+    from . import sessprops
     if a.replay:
         rep = json.load(open(a.replay))
+        if rep["case"].startswith("ss "):
+            core.run_correspondence(res, "sess", [{"id": "replay", "line": rep["case"], "kind": "sessions"}], sessprops,
+                                    corr_name="correspondence model<->code, family sess (the session table: Model/Sessions.v against hap.Context / hap.Connection)")
+            return
         if " NS:" in rep["case"]:
             cases = [{"id": "replay", "line": rep["case"], "kind": "shared-addr", "meta": {"adv": ["a"]}}]
         else:
@@ -44,6 +49,10 @@ def run(res, a):
             return
     else:
         core.run_correspondence(res, FAMILY, core.load_corpus(FAMILY) + gen(rng, a.tier), mod)
+        # the session table by itself: accepts, verifications, requests and closes over connections whose addresses overlap in every
+        # way two live connections' addresses can (same remote, other local; the same four addresses again after a reset)
+        core.run_correspondence(res, "sess", sessprops.gen(core.rng_for(ID + "/sess", res.seed), a.tier), sessprops,
+                                corr_name="correspondence model<->code, family sess (the session table: Model/Sessions.v against hap.Context / hap.Connection)")
         cases = sp.gen_c01_shared_addr(rng, a.tier)
     obs = core.shard_run(os.path.join(core.BUILD, "hcdrv"), FAMILY, ["%s %s" % (c["id"], c["line"]) for c in cases])
     bad = unsupported = 0
